@@ -21,6 +21,9 @@ def run(ctx):
     vlib.note_events(ctx, ev, keep=0)
     for e in ev[:3]:
         ctx.samples.append(ec.slim(e))
+    vlib.call_history_model(ctx)
+    vlib.call_histories(ctx, binp, ev, ["ed.Sign"], "Ed25519Trace", "key/signature differs from RFC 8032 as recomputed by TLC or from crypto/ed25519",
+                        extra_env={"VERIF_FOCUS": "sign"})
     bad = vlib.validate_trace(ctx, "Ed25519Trace", ev)
     if bad:
         # signing may depend on the history of the run (reused buffers, caches): reproduce by replaying the whole run
